@@ -119,7 +119,7 @@ if __name__ == "__main__":
              "JoinSrc_C01", translate_join.translate, "JoinSrcProof.v",
              ["split_src_is_part", "back_src_is_assemble", "back_index_is_position", "sel_out_src_is_keep",
               "sel_in_src_is_keep", "join_pins_src_is_keep", "get_out_to_src_is_filter", "get_in_from_src_is_filter",
-              "join_links_src_selects", "join_links_src_are_links", "join_conn_src_is_filter", "join_to_src_spec", "join_conn_src_rep"])],
+              "join_links_src_selects", "join_links_src_are_links", "join_conn_src_is_filter", "join_to_src_spec", "join_conn_src_rep", "join_structs_src_is_leaves"])],
          level_text="props/C01.v: for every netlist and every schedule, if the model of the elimination loop returns a "
                     "result then every solution of the network equations obeys the reported matrix (solve_sound), and "
                     "solutions exist for every excitation (solve_complete); the model refuses a result when a connection "
